@@ -100,9 +100,12 @@ func (g *FnGen) havocAll(why string) {
 	// keep ghost visited sets of map ranges (not program-visible)
 	keep := map[string]string{}
 	for f, t := range g.cur.h {
-		if strings.HasPrefix(f, "Visited_") {
+		if strings.HasPrefix(f, "Visited_") || strings.HasPrefix(f, "Ghost_") {
 			keep[f] = t
 		}
+	}
+	for _, fam := range g.ghost {
+		keep[fam] = g.heapGet(g.cur, fam, g.famSort[fam])
 	}
 	g.cur = &State{h: keep, epoch: e}
 	g.note("havocked whole heap: " + why)
@@ -125,6 +128,7 @@ func (g *FnGen) call(instr ssa.Instruction, c *ssa.CallCommon) Val {
 		args = append(args, g.val(a))
 	}
 	callee := c.StaticCallee()
+	g.callAsserts(instr, short, n)
 	fc, pc := g.prog.findContract(c, callee, name)
 	var rname string
 	if v, ok := instr.(ssa.Value); ok {
@@ -143,7 +147,11 @@ func (g *FnGen) call(instr ssa.Instruction, c *ssa.CallCommon) Val {
 			g.note("trusted effect-free callee: " + short)
 			g.bumpAlloc()
 			if nonNilResult[name] {
-				g.assumeHere(fmt.Sprintf("(not (= %s nil_iface))", result.T))
+				if result.S == "Iface" {
+					g.assumeHere(fmt.Sprintf("(not (= %s nil_iface))", result.T))
+				} else if result.S == "Int" {
+					g.assumeHere(fmt.Sprintf("(not (= %s 0))", result.T))
+				}
 			}
 		} else {
 			g.havocAll("call to " + short + " (no contract)")
@@ -153,6 +161,58 @@ func (g *FnGen) call(instr ssa.Instruction, c *ssa.CallCommon) Val {
 	}
 	// ghost updates / asserts attached to this call site
 	return result
+}
+
+// callAsserts: contract clauses "assert at call C#N: P" and "assert-all-calls [except ...]: P" become
+// obligations at the matching call sites (protocol automata, call-order/dominance properties).
+func (g *FnGen) callAsserts(instr ssa.Instruction, short string, n int) {
+	if g.dry {
+		return
+	}
+	// the callee name without package qualifier, e.g. (*SessionExecutor).doQuery
+	bare := short
+	if i := strings.LastIndex(short, "."); i >= 0 {
+		if j := strings.LastIndex(short[:i], "."); j >= 0 && !strings.Contains(short[j:i], ")") {
+			_ = j
+		}
+	}
+	for k, ca := range g.fc.CallAsserts {
+		match := false
+		if ca.Callee == "*" {
+			match = true
+			for _, ex := range ca.Except {
+				if strings.HasSuffix(short, ex) || strings.HasSuffix(bare, ex) {
+					match = false
+				}
+			}
+			if isEffectFree(g.calleeFull(instr)) {
+				match = false
+			}
+		} else if strings.HasSuffix(short, ca.Callee) && (!ca.HasN || ca.N == n) {
+			match = true
+		}
+		if !match {
+			continue
+		}
+		env := g.localEnv(instr.Block(), nil)
+		name := fmt.Sprintf("callsite/%s#%d/assert#%d", short, n, k)
+		if ca.C.Label != "" {
+			name = fmt.Sprintf("callsite/%s#%d/assert:%s", short, n, ca.C.Label)
+		}
+		g.oblige("callsite", name, env.trBool(ca.C.E), ca.C.Src, instr.Pos())
+	}
+}
+
+func (g *FnGen) calleeFull(instr ssa.Instruction) string {
+	switch i := instr.(type) {
+	case *ssa.Call:
+		return g.calleeName(&i.Call)
+	case *ssa.Defer:
+		return g.calleeName(&i.Call)
+	case *ssa.Go:
+		return g.calleeName(&i.Call)
+	}
+	return ""
 }
 
 func (g *FnGen) paramNames(fc *FuncContract, c *ssa.CallCommon, callee *ssa.Function, nargs int) []string {
